@@ -205,12 +205,14 @@ class ZWorker:
         self.path = path
         self.p = None
         self.stderr_path = None
+        self.buf = b""
 
     def _start(self):
         self.stderr_path = os.path.join(WORK, f"zdrive-stderr-{os.getpid()}-{id(self)}.txt")
         self.errf = open(self.stderr_path, "wb")
+        self.buf = b""
         self.p = subprocess.Popen([self.path, "worker"], stdin=subprocess.PIPE, stdout=subprocess.PIPE,
-                                  stderr=self.errf, env=dict(ENV, RUST_BACKTRACE="0"))
+                                  stderr=self.errf, env=dict(ENV, RUST_BACKTRACE="0"), bufsize=0)
 
     def close(self):
         if self.p:
@@ -240,31 +242,36 @@ class ZWorker:
         import select
         deadline = time.time() + wall_timeout
         started = False
-        while True:
+        fd = self.p.stdout.fileno()
+        eof = False
+        while not eof:
+            # drain complete lines already buffered
+            while b"\n" in self.buf:
+                out, self.buf = self.buf.split(b"\n", 1)
+                try:
+                    msg = json.loads(out)
+                except json.JSONDecodeError:
+                    continue
+                if "start" in msg:
+                    started = True
+                    continue
+                if "bad_job" in msg:
+                    return {"id": job.get("id"), "bad_job": msg["bad_job"]}
+                return msg
             remaining = deadline - time.time()
             if remaining <= 0:
                 self.p.kill()
                 self.p.wait()
                 self.close()
                 return {"id": job.get("id"), "watchdog": True}
-            r, _, _ = select.select([self.p.stdout], [], [], min(remaining, 5))
+            r, _, _ = select.select([fd], [], [], min(remaining, 5))
             if not r:
-                if self.p.poll() is not None:
-                    break
                 continue
-            out = self.p.stdout.readline()
-            if not out:
-                break
-            try:
-                msg = json.loads(out)
-            except json.JSONDecodeError:
-                continue
-            if "start" in msg:
-                started = True
-                continue
-            if "bad_job" in msg:
-                return {"id": job.get("id"), "bad_job": msg["bad_job"]}
-            return msg
+            chunk = os.read(fd, 1 << 16)
+            if not chunk:
+                eof = True
+            else:
+                self.buf += chunk
         rc = self.p.wait()
         self.errf.flush()
         try:
